@@ -57,6 +57,17 @@ class CrystalMapProperties(dict):
         else:
             self.is_in_data = is_in_data
 
+    def __deepcopy__(self, memo):
+        # Copy the full arrays directly: __setitem__() writes into the
+        # points in the data only, which need not be all points
+        import copy
+
+        return CrystalMapProperties(
+            {k: copy.deepcopy(v, memo) for k, v in dict.items(self)},
+            id=copy.deepcopy(self.id, memo),
+            is_in_data=copy.deepcopy(self.is_in_data, memo),
+        )
+
     def __setitem__(self, key, value):
         """Add an array to or update an existing array in the
         dictionary.
